@@ -175,6 +175,56 @@ def client_observed(step_post, n, hrr=False):
     return "acc %d %04x %d" % (c["ver"], c["suite"], c["ems"])
 
 
+# ------------------------------------------------------------------ (D)TLS <= 1.2 curves and ServerKeyExchange
+CURVE_FLAG = {19: 1, 21: 2, 23: 4, 24: 8, 25: 16}            # compiled-in curves of the default configuration (checked against Gen below)
+ALL_EC = 0x1f
+
+def flag_set(flags):
+    return [c for c, f in CURVE_FLAG.items() if (flags or ALL_EC) & f]
+
+def subsets_flags():
+    return list(range(1, ALL_EC + 1))
+
+
+class Ske:
+    """ECDHE ServerKeyExchange in a plaintext record"""
+    def __init__(self, rec, tls12):
+        self.rec_hdr = rec[:5]
+        body = rec[5:]
+        self.ok = body[:1] == b"\x0c"
+        if not self.ok: return
+        l = int.from_bytes(body[1:4], "big"); m = body[4:4 + l]; self.rest = body[4 + l:]
+        self.curve_type = m[0]; self.curve = struct.unpack(">H", m[1:3])[0]
+        pl = m[3]; self.point = m[4:4 + pl]; p = 4 + pl
+        self.tls12 = tls12
+        self.alg = None
+        if tls12:
+            self.alg = struct.unpack(">H", m[p:p + 2])[0]; p += 2
+        sl = struct.unpack(">H", m[p:p + 2])[0]; self.sig = m[p + 2:p + 2 + sl]
+
+    def record(self):
+        m = bytes([self.curve_type]) + struct.pack(">H", self.curve) + bytes([len(self.point)]) + self.point
+        if self.tls12: m += struct.pack(">H", self.alg)
+        m += struct.pack(">H", len(self.sig)) + self.sig
+        hs = b"\x0c" + len(m).to_bytes(3, "big") + m + self.rest
+        return self.rec_hdr[:3] + struct.pack(">H", len(hs)) + hs
+
+
+def chellog_case(ch, sprio, sdis, sreq, okids, ecflags, key_curve):
+    g = ch.groups()
+    return chello_case(ch, sprio, sdis, sreq, okids).replace("chello ", "chellog ", 1) + " %x %d %s" % (ecflags or ALL_EC, key_curve, "none" if g is None else csv(g))
+
+
+def server_observed_g(n, ecs, types):
+    base = server_observed(n)
+    if not base.startswith("acc "): return base + (" g=-" if base.startswith("acc13") else "")
+    su = int(base.split()[2], 16)
+    return base + (" g=%d" % ecs if types.get(su) in (6, 7) else " g=-")
+
+
+EC_RE = re.compile(r"ec:c=(\d+),([0-9a-f]+) s=(\d+),([0-9a-f]+)(?: cg13=(\S+) csa=(\S+) ckx=(\d)(\d))?")
+
+
 # ------------------------------------------------------------------ independent spec oracle (ServerHello acceptance)
 def sh_must_reject(ch, sh, ems_required):
     """reasons for which the property demands that this client refuses this ServerHello outright"""
@@ -219,8 +269,8 @@ def cfg_fields(cfg):
 
 class Live:
     """runs (config, hello, ops) cases through h_neg and judges them"""
-    def __init__(self, ck, ng, oracle_ok, deflists):
-        self.ck, self.ng, self.ok, self.deflists = ck, ng, oracle_ok, deflists
+    def __init__(self, ck, ng, oracle_ok, deflists, types=None):
+        self.ck, self.ng, self.ok, self.deflists, self.types = ck, ng, oracle_ok, deflists, types or {}
         self.chello, self.shello = [], []            # (case line, impl line)
 
     def key_of(self, cfg):
@@ -256,12 +306,13 @@ class Live:
             except Exception: continue
             new = h.record()
             if new == rec: continue
-            scripts.append("new %s ; sethead c2s %s ; step c2s ; neg ; hs ; neg" % (cfg, new.hex())); meta.append((cfg, ops, h, cv))
+            scripts.append("new %s ; sethead c2s %s ; step c2s ; neg ; ec ; hs ; neg" % (cfg, new.hex())); meta.append((cfg, ops, h, cv))
         outs = self.ng.run(scripts)
         for sc, (cfg, ops, h, cv), o in zip(scripts, meta, outs):
             parts = o.split(" | ")
             n1 = parse_neg(parts[3]) if len(parts) > 3 else None
-            n2 = parse_neg(parts[5]) if len(parts) > 5 else None
+            e1 = EC_RE.search(parts[4]) if len(parts) > 4 else None
+            n2 = parse_neg(parts[6]) if len(parts) > 6 else None
             self.ck.count("mitm_ch"); self.ck.cov["evaluations"] += 1
             self.judge_complete("ClientHello", cfg, ops, n2, h, sc)
             # server-side model correspondence for the fields the model abstracts
@@ -269,10 +320,13 @@ class Live:
             sv_subset = h.sv_list() is None or osv is None or set(h.sv_list()) <= set(osv)    # else the client's other extensions (signature_algorithms) do not fit the version: key-fitness oracle no longer applies
             och = Hello(heads[cfg][0])
             ver_down = ENC.get(struct.unpack(">H", h.version)[0], 0) <= ENC.get(struct.unpack(">H", och.version)[0], 0)      # same reason for client_version raised above what the client speaks
-            if n1 and "cgrp" not in cfg and "sops" not in cfg and sv_subset and (ver_down or h.sv_list() is not None) and all(op.split("=")[0] in ("version", "suites", "addsuite", "dropsuite", "comp", "fliprandom", "sid") or op.startswith("delext=23") or op.startswith("setext=43") for op in ops):
+            grp_ok = h.groups() is None or len(h.groups()) > 0
+            if n1 and e1 and "cgrp" not in cfg and "sops" not in cfg and sv_subset and grp_ok and (ver_down or h.sv_list() is not None) and all(op.split("=")[0] in ("version", "suites", "addsuite", "dropsuite", "comp", "fliprandom", "sid") or op.startswith("delext=23") or op.startswith("setext=43") or op.startswith("setext=10") or op.startswith("delext=10") for op in ops):
                 if not (n1[1]["ver"] & V13ANY) or n1[1]["err"] == 255:
                     sreq = cfg_fields(cfg).get("sems") == "1"
-                    self.chello.append((chello_case(h, prio_list(cv[3]), self.sdis_of(cfg), 1 if sreq else 0, self.ok[self.key_of(cfg)]), server_observed(n1), sc))
+                    sec = int(cfg_fields(cfg).get("sec", "0"), 16)
+                    self.chello.append((chellog_case(h, prio_list(cv[3]), self.sdis_of(cfg), 1 if sreq else 0, self.ok[self.key_of(cfg)], sec, 23 if self.key_of(cfg) == "ec" else 0),
+                                        server_observed_g(n1, int(e1.group(3)), self.types), sc))
             # fallback SCSV oracle
             if n2 and SCSV in h.suites and h.sv_list() is None:
                 legacy = ENC.get(struct.unpack(">H", h.version)[0], 0)
@@ -325,6 +379,91 @@ class Live:
             case = shello_case(h, ch, prio_list(cv[1]), self.offered_of(cfg), self.deflists[self.key_of(cfg)], ems_req, ks_err)
             if case is not None:
                 self.shello.append((case, client_observed(post, n1, is_hrr), sc))
+
+
+def ske_case(e, active, ske, sig_ok, point_ok=True):
+    """abstract `ske` case for the model from the client's configuration (h_neg `ec` output) and the ServerKeyExchange"""
+    cf, cg13, csa, rsa, dsa = e.group(2), e.group(5), e.group(6), e.group(7), e.group(8)
+    return "ske %d %s %s %s %d %s %s %d %d %s %d %d" % (0, cg13, cf, csa, active | NEG, rsa, dsa, ske.curve_type, ske.curve,
+                                                         "-" if ske.alg is None else "%04x" % ske.alg, 1 if point_ok else 0, 1 if sig_ok else 0)
+
+
+def run_ske(live, cfgs, r, corpus_items=()):
+    """(iii) for the ServerKeyExchange.  items: (cfg, ch_ops, ske_ops):  the ClientHello may be rewritten towards the honest
+    server (that is how a hostile server's choice is produced with an honest signature), then single fields of the
+    ServerKeyExchange are rewritten in flight"""
+    ck, ng = live.ck, live.ng
+    base = [(c, []) for c in cfgs] + [(c, o) for c, o in corpus_items]
+    chh = dict(zip(cfgs + [c for c, _ in corpus_items], ng.heads(cfgs + [c for c, _ in corpus_items], "c2s")))
+    # pass 1: obtain the genuine ServerKeyExchange of every (cfg, ch rewrite)
+    pre, meta1 = [], []
+    for cfg, chops in base:
+        rec = chh[cfg][0]
+        if rec is None: continue
+        try: h = rewrite(rec, chops)
+        except Exception: continue
+        pre.append("new %s ; sethead c2s %s ; step c2s ; step s2c 2 ; gethead s2c ; ec" % (cfg, h.record().hex())); meta1.append((cfg, chops, Hello(rec), h))
+    out1 = ng.run(pre)
+    scripts, meta = [], []
+    for (cfg, chops, ch0, h), o, p1 in zip(meta1, out1, pre):
+        m = re.search(r"head:([0-9a-f]+)", o); e = EC_RE.search(o)
+        if not m or not e: continue
+        rec = bytes.fromhex(m.group(1)); f = cfg_fields(cfg)
+        tls12 = "cv=2" not in cfg and "sv=2 " not in cfg + " "
+        k = Ske(rec, tls12)
+        if not k.ok: continue
+        muts = [("none", lambda k: None)]
+        if not chops:
+            for cid in (19, 21, 23, 24, 25, 29, 26, 0, 256):
+                muts.append(("curve=%d" % cid, lambda k, cid=cid: setattr(k, "curve", cid)))
+            muts += [("curve_type=1", lambda k: setattr(k, "curve_type", 1)), ("curve_type=2", lambda k: setattr(k, "curve_type", 2)),
+                     ("point", lambda k: setattr(k, "point", k.point[:-1] + bytes([k.point[-1] ^ 1]))),
+                     ("sig", lambda k: setattr(k, "sig", k.sig[:-1] + bytes([k.sig[-1] ^ 1])))]
+            if tls12:
+                for a in (0x0201, 0x0401, 0x0501, 0x0601, 0x0403, 0x0503, 0x0603, 0x0804, 0x0101, 0x0000, 0x0402):
+                    muts.append(("alg=%04x" % a, lambda k, a=a: setattr(k, "alg", a)))
+        for name, fn in muts:
+            k2 = Ske(rec, tls12); fn(k2); new = k2.record()
+            if name != "none" and new == rec: continue
+            scripts.append("new %s ; sethead c2s %s ; step c2s ; step s2c 2 ; sethead s2c %s ; step s2c ; ec ; hs ; neg" % (cfg, h.record().hex(), new.hex()))
+            meta.append((cfg, chops, ch0, h, k, k2, name))
+    outs = ng.run(scripts)
+    cases = []
+    for sc, (cfg, chops, ch0, h, k, k2, name), o in zip(scripts, meta, outs):
+        parts = o.split(" | ")
+        if len(parts) < 9: continue
+        st = sesslib.parse_steps(parts[5]); e = EC_RE.search(parts[6]); n2 = parse_neg(parts[8])
+        if not st or not e or not n2: continue
+        post = st[0].post; f = cfg_fields(cfg)
+        ck.count("ske:" + ("honest" if name == "none" and not chops else "chrewrite" if name == "none" else name.split("=")[0])); ck.cov["evaluations"] += 1
+        accepted = post["err"] == 255 and not post["E"]
+        sec = int(f.get("sec", "0"), 16)
+        # what the honest server put into its ServerKeyExchange
+        if name == "none":
+            if k.curve not in flag_set(sec) or (h.groups() is not None and k.curve not in h.groups()):
+                ck.spec_violation("ske-curve-not-enabled", "the server's ServerKeyExchange names a curve outside (received supported_groups) x (its session ecFlags)",
+                                  {"harness": "h_neg", "script": sc, "config": cfg, "ops": chops, "observed": "curve %d" % k.curve,
+                                   "expected_by_spec": sorted(set(flag_set(sec)) & set(h.groups() if h.groups() is not None else flag_set(sec)))})
+            if k.alg is not None and h.sigalgs() is not None and k.alg not in h.sigalgs():
+                ck.spec_violation("ske-sigalg-not-offered", "the server signs ServerKeyExchange with an algorithm missing from the received signature_algorithms",
+                                  {"harness": "h_neg", "script": sc, "config": cfg, "observed": "%04x" % k.alg, "expected_by_spec": ["%04x" % a for a in h.sigalgs()]})
+        # the client's verdict on what it received, against what ITS hello had offered
+        if accepted and (k2.curve not in (ch0.groups() or [])):
+            ck.spec_violation("ske-accept:unoffered-curve", "client accepted a ServerKeyExchange on curve %d, which its ClientHello did not list %s" % (k2.curve, ch0.groups()),
+                              {"harness": "h_neg", "script": sc, "config": cfg, "ops": chops + [name], "observed": "client hs=%d err=%d after ServerKeyExchange" % (post["hs"], post["err"]),
+                               "expected_by_spec": "illegal_parameter"})
+        if accepted and k2.alg is not None and k2.alg not in (ch0.sigalgs() or []):
+            ck.spec_violation("ske-accept:unoffered-sigalg", "client accepted a ServerKeyExchange signed with an algorithm it did not list",
+                              {"harness": "h_neg", "script": sc, "config": cfg, "ops": chops + [name], "observed": "client hs=%d err=%d" % (post["hs"], post["err"])})
+        if name != "none" or chops:
+            live.judge_complete("ServerKeyExchange" if name != "none" else "ClientHello", cfg, [name] if name != "none" else chops, n2, None, sc)
+        active = 4 if not k.tls12 else 16
+        sig_ok = name == "none"
+        t13 = 1 if "cv=4" in cfg else 0
+        point_ok = not (name.startswith("curve=") or name == "point")      # the point belongs to the original curve
+        case = ske_case(e, active, k2, sig_ok, point_ok).replace("ske 0 ", "ske %d " % t13, 1)
+        cases.append((case, "ok" if accepted else "err %d" % post["err"], sc))
+    return cases
 
 
 # ------------------------------------------------------------------ generators
@@ -391,6 +530,39 @@ def misc_direct_cases(table, r, n_ccs):
                     cases.append("gcs %d %d %d - %04x" % (srv, s, a, i))
                 cases.append("gcs %d %d %d %04x %04x" % (srv, s, T12 | NEG, i, i))
                 cases.append("gcs %d %d %d %04x,%04x %04x" % (srv, s, T12 | NEG, 0x1234, i ^ 1, i))
+    return cases
+
+
+def curve_sig_direct_cases(r, thorough):
+    """tlsParseSupportedGroups over ALL pairs of non-empty subsets of the compiled-in curves (+ orders, duplicates, foreign ids),
+    tlsParseSignatureAlgorithms, chooseSigAlgInt over its whole small domain"""
+    cases = []
+    order = [23, 24, 25, 21, 19]
+    for sf in subsets_flags():
+        for cf in subsets_flags():
+            cases.append("sg %x %s" % (sf, csv([c for c in order if CURVE_FLAG[c] & cf])))
+        for extra in ([29, 23, 24], [24, 23], [25, 24, 23, 21, 19], [19, 19, 24], [26, 27, 255, 23], [99, 0, 24], [29], [0x100, 25]):
+            cases.append("sg %x %s" % (sf, csv(extra)))
+    for sf in (0x20000, 0x20004, 0x800004, 0x10008):
+        for l in ([26, 23], [23, 26], [255, 24], [24]):
+            cases.append("sg %x %s" % (sf, csv(l)))
+    algs = [0x0201, 0x0203, 0x0401, 0x0403, 0x0501, 0x0503, 0x0601, 0x0603, 0x0804, 0x0805, 0x0806, 0x0402, 0x0807, 0x0101, 0x0301, 0x0000]
+    for _ in range(600 if thorough else 200):
+        sup = r.sample(algs, r.choice([1, 2, 4, 8])); lst = [r.choice(algs) for _ in range(r.choice([1, 2, 3, 6, 10]))]
+        cases.append("psa %s %s" % (csv(sup, "%04x"), csv(lst, "%04x")))
+    oids = [1670, 648, 1673, 1679, 1680, 1681, 520, 524, 525, 526, 1678, 7]
+    bits = [2, 4, 16, 32, 64, 1024, 4096, 8192, 16384]
+    masks = set([0, 0xffff, 16, 64, 4096, 16384, 1, 256])
+    if thorough:
+        for k in range(512): masks.add(sum(b for i, b in enumerate(bits) if k >> i & 1))
+    else:
+        for b in bits: masks.add(b); masks.add(0x7476 & ~b)
+        while len(masks) < 90: masks.add(sum(b for b in bits if r.random() < 0.5))
+    for o in oids:
+        for ka in (645, 518, 9):
+            for ks in (32, 64, 74, 75, 256):
+                for m in sorted(masks):
+                    cases.append("csa %d %d %d %d" % (o, ka, ks, m))
     return cases
 
 
@@ -483,6 +655,30 @@ def gen_config(r, table_ids):
     if r.random() < 0.15 and 4 not in cv: cfg += " scsv=1"
     cfg += " seed=%d" % r.randrange(1, 1 << 30)
     return cfg
+
+
+def curve_cfgs(ck, r):
+    """per-session ecFlags on both sides: ALL pairs of non-empty curve subsets (RSA key, TLS 1.2) - disjoint ones included;
+    TLS 1.1, ECDSA key (sets containing the key's curve P-256), TLS 1.3-capable clients: sampled in quick, exhaustive in thorough"""
+    out = []
+    fl = subsets_flags()
+    for cf in fl:
+        for sf in fl:
+            out.append("cv=3 sv=3 suite=c02f cec=%x sec=%x" % (cf, sf))
+    more = []
+    for cf in fl:
+        for sf in fl:
+            more.append("cv=2 sv=2 suite=c013 cec=%x sec=%x" % (cf, sf))
+            more.append("cv=3 sv=3 suite=c030,009d cec=%x sec=%x" % (cf, sf))
+            more.append("cv=4,3 sv=3 sec=%x" % sf)
+            if cf & 4 and sf & 4:
+                more.append("cv=3 sv=3 key=ec suite=c02b cec=%x sec=%x" % (cf, sf))
+                more.append("cv=2 sv=2 key=ec suite=c009 cec=%x sec=%x" % (cf, sf))
+                more.append("cv=3 sv=3 key=ec suite=c02d,c02b cec=%x sec=%x" % (cf, sf))
+    more = sorted(set(more))
+    if ck.tier != "thorough":
+        more = r.sample(more, 160)
+    return out + more
 
 
 def ch_ops(ch, r):
@@ -609,6 +805,33 @@ def run(ck):
                 ck.spec_violation("select-outside-intersection", "tls13IntersectionPrioritySelect returned an element outside a x b minus f",
                                   {"harness": "h_neg", "case": c, "observed": o})
 
+    # (D)TLS <= 1.2 curve and signature-algorithm functions: exhaustive over all pairs of curve subsets
+    gen_curves = dict((int(a), int(b)) for a, b in re.findall(r"\((\d+), (\d+)\)", re.search(r"c_curve_flags[^\n]*", open(os.path.join(vlib.COQ, "Gen", "ConstsNeg.v")).read()).group(0)))
+    comp_ids = [int(x) for x in re.search(r"c_ecc_curve_ids : list N := \[([^\]]*)\]", open(os.path.join(vlib.COQ, "Gen", "ConstsNeg.v")).read()).group(1).split(";")]
+    if sorted(comp_ids) != sorted(CURVE_FLAG) or any(gen_curves.get(c) != f for c, f in CURVE_FLAG.items()):
+        ck.obligation("curve-table-matches-generator", False, detail="compiled-in curves changed: %s" % comp_ids)
+    gc = curve_sig_direct_cases(r, thorough)
+    rc, impl, _ = ck.run_lines(h, gc); rc2, model, _ = ck.run_lines(drv, gc)
+    ck.correspond("tlsParseSupportedGroups (all pairs of curve subsets), tlsParseSignatureAlgorithms, chooseSigAlgInt vs model (exhaustive for curves)", gc, impl, model,
+                  nontrivial=lambda c, o: not o.endswith(":0") and not o.endswith("=U"))
+    for c, o in zip(gc, impl):
+        t = c.split(); ck.count(t[0])
+        if t[0] == "sg":
+            m = re.match(r"sg=(-?\d+):([0-9a-f]+):(\d+)", o)
+            if not m or m.group(1) != "0": continue
+            cfgf = int(t[1], 16); lst = [int(x) for x in t[2].split(",")]; cid = int(m.group(3))
+            common = [x for x in lst if gen_curves.get(x, 0) & cfgf]
+            if (cid and cid not in common) or (not cid and common) or (cid and cid != common[0]):
+                ck.spec_violation("curve-not-common", "tlsParseSupportedGroups picks a curve outside (client list) x (session ecFlags), or misses a common one",
+                                  {"harness": "h_neg", "case": c, "observed": o, "expected_by_spec": common[:1]})
+        elif t[0] == "csa" and o != "csa=U":
+            a = int(o[4:]); cert, mask = int(t[1]), int(t[4])
+            mk = {648: 2, 1673: 4, 1679: 16, 1680: 32, 1681: 64, 520: 1024, 524: 4096, 525: 8192, 526: 16384}
+            if not (mk.get(a, 0) & mask) and a != cert:
+                ck.spec_violation("sigalg-not-in-peer-list", "chooseSigAlgInt returns an algorithm the peer did not list (and not the certificate's own)",
+                                  {"harness": "h_neg", "case": c, "observed": o})
+    ck.cov["exhaustive_part"] += "; tlsParseSupportedGroups: all 31x31 pairs of non-empty subsets of the compiled-in curves"
+
     # enable/disable histories through the public API (slot reuse, holes, duplicates, overflow, global switches)
     hc = [l.split(" :: ")[1] for l in corpus_cases() if l.startswith("dh :: ")]
     hc = ["%s %s" % (c, csv(ok[c.split()[1]], "%04x")) for c in hc] + history_cases(table, ok, r, ck.budget(400, 6000))
@@ -662,7 +885,7 @@ def run(ck):
     rc2, dmodel, _ = ck.run_lines(drv, dcases)
     ck.correspond("fallback SCSV on DTLS handshakes vs model", dcases, dimpl, dmodel, nontrivial=lambda c, o: o == "fb=1")
 
-    live = Live(ck, ng, ok, deflists)
+    live = Live(ck, ng, ok, deflists, dict((t[0], t[1]) for t in table))
 
     # ---------------- corpus: the defect witnesses, as ServerHello rewrites
     corp = [l.split(" :: ") for l in corpus_cases()]
@@ -694,7 +917,8 @@ def run(ck):
     for _ in range(ck.budget(120, 3000)):
         c = gen_config(r, table_ids)
         if c not in seen: seen.add(c); cfgs.append(c)
-    scripts = ["new %s ; cfgv ; gethead c2s ; step c2s ; neg ; hs ; neg" % c for c in cfgs]
+    cfgs += curve_cfgs(ck, r)
+    scripts = ["new %s ; cfgv ; gethead c2s ; step c2s ; neg ; ec ; hs ; neg ; ec" % c for c in cfgs]
     outs = ng.run(scripts)
     ncomplete = 0
     for cfg, sc, o in zip(cfgs, scripts, outs):
@@ -702,8 +926,9 @@ def run(ck):
         if not parts[0].startswith("new:0"):
             ck.count("live_new_refused"); continue
         v = re.search(r"cfgv:c=(\d+):(\S+) s=(\d+):(\S+)", parts[1]); m = re.search(r"head:([0-9a-f]+)", parts[2])
-        n1 = parse_neg(parts[4]) if len(parts) > 4 else None; n2 = parse_neg(parts[6]) if len(parts) > 6 else None
-        if not (v and m and n1 and n2): continue
+        n1 = parse_neg(parts[4]) if len(parts) > 4 else None; n2 = parse_neg(parts[7]) if len(parts) > 7 else None
+        e1 = EC_RE.search(parts[5]) if len(parts) > 5 else None; e2 = EC_RE.search(parts[8]) if len(parts) > 8 else None
+        if not (v and m and n1 and n2 and e1 and e2): continue
         ch = Hello(bytes.fromhex(m.group(1)))
         cprio, sprio = prio_list(v.group(2)), prio_list(v.group(4))
         ck.cov["evaluations"] += 1; ck.add_distinct("live" + cfg)
@@ -711,8 +936,17 @@ def run(ck):
         # model of the server's reaction to this ClientHello
         sreq = f.get("sems") == "1"
         hist_s, hist_g = history_disabled(f["sops"].split(","), ["0"] * 99) if "sops" in f else (set(), set())
+        sec = int(f.get("sec", "0"), 16); cec = int(f.get("cec", "0"), 16)
         if "sops" not in f:
-            live.chello.append((chello_case(ch, sprio, live.sdis_of(cfg), 1 if sreq else 0, ok[f.get("key", "rsa")]), server_observed(n1), sc))
+            live.chello.append((chellog_case(ch, sprio, live.sdis_of(cfg), 1 if sreq else 0, ok[f.get("key", "rsa")], sec, 23 if f.get("key") == "ec" else 0),
+                                server_observed_g(n1, int(e1.group(3)), live.types), sc))
+        # server side, right after the ClientHello: an ECDHE suite may only go ahead on a curve the client listed and this session enabled
+        so1 = server_observed_g(n1, int(e1.group(3)), live.types)
+        if so1.startswith("acc ") and not so1.endswith("g=-"):
+            gsel = int(e1.group(3)); common = [x for x in (ch.groups() if ch.groups() is not None else flag_set(sec)) if x in flag_set(sec)]
+            if gsel not in common:
+                ck.spec_violation("server-curve-not-common", "server goes ahead with an ECDHE suite on curve %d (0 = library default) although (client supported_groups) x (session ecFlags) = %s" % (gsel, common),
+                                  {"harness": "h_neg", "script": sc, "config": cfg, "observed": so1, "expected_by_spec": "handshake_failure" if not common else common[0]})
         c, s = n2
         if "sops" in f:
             offered1 = [x for x in ch.suites if x not in (SCSV, RENEG_SCSV)]
@@ -725,7 +959,10 @@ def run(ck):
         if c["done"] != s["done"]:
             ck.spec_violation("one-sided-completion", "only one endpoint completed the handshake", {"harness": "h_neg", "script": sc, "observed": n2})
         if not (c["done"] and s["done"]):
-            ck.count("live_failed"); continue
+            ck.count("live_failed")
+            if ("cec" in f or "sec" in f) and not (set(ch.groups() or []) & set(flag_set(sec))):
+                ck.count("live_curve:disjoint_refused")
+            continue
         ncomplete += 1; ck.count("live_completed:%d" % c["ver"])
         # both ends hold identical parameters and keys
         for k in ("ver", "suite", "group", "sig", "ems", "kc", "ks"):
@@ -749,6 +986,13 @@ def run(ck):
             if c["sig"] not in (ch.sigalgs() or []):
                 ck.spec_violation("live-sigalg", "CertificateVerify algorithm not offered by the client", {"harness": "h_neg", "script": sc, "observed": n2})
         else:
+            if live.types.get(c["suite"]) in (6, 7):
+                # ECDHE curve: the same on both ends, listed by the client, enabled by the server session
+                cc, sc_ = int(e2.group(1)), int(e2.group(3))
+                ck.count("live_curve:%d" % cc)
+                if cc != sc_ or cc not in (ch.groups() or []) or cc not in flag_set(sec):
+                    ck.spec_violation("live-group12", "completed (D)TLS<=1.2 ECDHE handshake on a curve outside (client supported_groups) x (server ecFlags)",
+                                      {"harness": "h_neg", "script": sc, "observed": [n2, parts[8]], "expected_by_spec": sorted(set(ch.groups() or []) & set(flag_set(sec)))})
             if (f.get("cems") == "1" or sreq) and not c["ems"]:
                 ck.spec_violation("live-ems", "extended_master_secret required by an endpoint but not in use", {"harness": "h_neg", "script": sc, "observed": n2})
             if c["ems"] != (1 if ch.ext(EXT_EMS) is not None else 0):
@@ -778,6 +1022,45 @@ def run(ck):
     live.run_ch_rewrites(ch_items)
     live.run_sh_rewrites(sh_items)
     ck.cov["mitm_rewrites"] = len(ch_items) + len(sh_items)
+
+    # ---------------- (iii) ServerKeyExchange: hostile choices (ClientHello rewritten towards the honest server) and field rewrites
+    def grp(ids): return struct.pack(">H", 2 * len(ids)) + b"".join(struct.pack(">H", i) for i in ids)
+    ske_cfgs = ["cv=3 sv=3 suite=c02f cec=8 sec=4", "cv=3 sv=3 suite=c02f cec=4 sec=8", "cv=2 sv=2 suite=c013 cec=10 sec=3",     # disjoint: no ServerKeyExchange may appear
+                "cv=3 sv=3 suite=c02f", "cv=3 sv=3 suite=c02f cec=8 sec=8", "cv=3 sv=3 key=ec suite=c02b", "cv=2 sv=2 suite=c013", "cv=2 sv=2 key=ec suite=c009 cec=c sec=c",
+                "cv=4,3 sv=3", "cv=3 sv=3 suite=c030 csig=0401,0601", "cv=3 sv=3 suite=c02f cec=14 sec=1c"]
+    hostile = [l.split(" :: ") for l in corpus_cases() if l.startswith("ske :: ")]
+    hostile = [(c[1], c[2].split()) for c in hostile]
+    for cf, target in ((8, 23), (4, 24), (0x10, 19), (0xc, 25), (1, 23)):
+        hostile.append(("cv=3 sv=3 suite=c02f cec=%x" % cf, ["setext=10:" + grp([target]).hex()]))
+        hostile.append(("cv=2 sv=2 suite=c013 cec=%x" % cf, ["setext=10:" + grp([target]).hex()]))
+    for sf in (8, 0x10, 3, 0x18):
+        hostile.append(("cv=3 sv=3 suite=c02f sec=%x" % sf, ["delext=10"]))
+        hostile.append(("cv=3 sv=3 suite=c02f cec=%x sec=%x" % (sf, sf), ["delext=10", "delext=11"]))
+    hostile.append(("cv=4,3 sv=3 sec=1", ["setext=10:" + grp([19]).hex()]))
+    hostile.append(("cv=4,3 sv=3 sec=2", ["setext=10:" + grp([21]).hex()]))
+    skec = run_ske(live, ske_cfgs, r, hostile)
+    if skec:
+        cs = [c for c, _, _ in skec]; im = [o for _, o, _ in skec]
+        rc2, model, _ = ck.run_lines(drv, cs)
+        ck.correspond("client reaction to ServerKeyExchange (parseServerKeyExchange curve checks + tlsVerify algorithm checks) vs model", cs, im, model,
+                      nontrivial=lambda c, o: True)
+        ck.notes += ["ske disagreement script: " + sc[:1200] for (c, o, sc), m in zip(skec, model) if o != m][:3]
+
+    # ---------------- DTLS 1.2 / 1.0 with per-session curve sets (sampled pairs; all pairs in the thorough tier)
+    dpairs = [(cf, sf) for cf in subsets_flags() for sf in subsets_flags()]
+    if not thorough: dpairs = r.sample(dpairs, 40) + [(8, 4), (4, 8), (0x10, 0xf), (1, 1)]
+    dc = ["dscsv %s %s 0 %x %x" % (v, v, cf, sf) for (cf, sf) in dpairs for v in (("12",) if not thorough else ("12", "10"))]
+    for c, o in zip(dc, ng.run(dc)):
+        m = re.search(r"dscsv:c=(\d),(\d+),(\d+) s=(\d),(\d+),(\d+) srvsupp=\d+ ec=(\d+),(\d+),([0-9a-f]{4})", o)
+        if not m: continue
+        t = c.split(); cf, sf = int(t[4], 16), int(t[5], 16); common = set(flag_set(cf)) & set(flag_set(sf))
+        done = m.group(1) == "1" and m.group(4) == "1"; cc, sc_ = int(m.group(7)), int(m.group(8))
+        ck.count("dtls_curve:" + ("done" if done else "refused")); ck.cov["evaluations"] += 1
+        if done and (cc != sc_ or cc not in common):
+            ck.spec_violation("live-group12:dtls", "completed DTLS ECDHE handshake on a curve outside (client list) x (server ecFlags)",
+                              {"harness": "h_neg", "case": c, "observed": o, "expected_by_spec": sorted(common)})
+        if (m.group(1) == "1") != (m.group(4) == "1"):
+            ck.spec_violation("one-sided-completion", "only one DTLS endpoint completed", {"harness": "h_neg", "case": c, "observed": o})
 
     # ---------------- model of the hello processing against everything seen above
     if live.chello:
